@@ -476,3 +476,60 @@ pub fn list_pop(src: &[u8], l: &mut SegList, absolute: bool, dotdot: R) {
         l.pop();
     }
 }
+
+
+/// `out` is exactly the concatenation of `pieces` (compared in place, without
+/// building the expected text: an intermediate buffer written at symbolic
+/// offsets makes the SAT encoding explode).
+pub fn concat_eq(out: &[u8], pieces: &[&[u8]]) -> bool {
+    let mut k = 0;
+    let mut i = 0;
+    while i < pieces.len() {
+        let p = pieces[i];
+        if k + p.len() > out.len() {
+            return false;
+        }
+        let mut j = 0;
+        while j < p.len() {
+            if out[k + j] != p[j] {
+                return false;
+            }
+            j += 1;
+        }
+        k += p.len();
+        i += 1;
+    }
+    k == out.len()
+}
+
+/// The pieces of the RFC 3986 5.3 recomposition of `c` with the three
+/// documented disambiguations (see `recompose_with`).
+pub fn recompose_pieces<'a>(c: &Comps<'a>, slash_empty: bool) -> [&'a [u8]; 10] {
+    let e: &'static [u8] = b"";
+    let p = c.path;
+    let shield: &'static [u8] = if c.authority.is_some() {
+        if (p.is_empty() && slash_empty) || (!p.is_empty() && p[0] != b'/') {
+            b"/"
+        } else {
+            b""
+        }
+    } else if p.len() >= 2 && p[0] == b'/' && p[1] == b'/' {
+        b"/."
+    } else if c.scheme.is_none() && first_segment_has_colon(p) {
+        b"./"
+    } else {
+        b""
+    };
+    [
+        c.scheme.unwrap_or(e),
+        if c.scheme.is_some() { b":" } else { e },
+        if c.authority.is_some() { b"//" } else { e },
+        c.authority.unwrap_or(e),
+        shield,
+        p,
+        if c.query.is_some() { b"?" } else { e },
+        c.query.unwrap_or(e),
+        if c.fragment.is_some() { b"#" } else { e },
+        c.fragment.unwrap_or(e),
+    ]
+}
